@@ -108,6 +108,7 @@ class SolveSeam:
         self.fired = []
         self.residuals = []  # (entry index, |Ax-b|_inf)
         self.rel_residuals = []  # |Ax-b|_inf / |b|_inf
+        self.rel2_residuals = []  # |Ax-b|_2 / |b|_2: the quantity pyamg and scipy's cg compare with their tolerance
         self.max_b = 0.0
         self.setups = 0
         self.reused = 0
@@ -191,6 +192,7 @@ class SolveSeam:
         self.fault = fault
         self.entries, self.current = 0, -1
         self.fired, self.residuals, self.rel_residuals = [], [], []
+        self.rel2_residuals = []
         self.max_b = 0.0
         self.setups = self.reused = 0
         self.bookkeeping_calls = 0
@@ -233,6 +235,8 @@ class SolveSeam:
             r = float(np.max(np.abs(A @ x - b))) if np.all(np.isfinite(x)) else float("inf")
             nb = float(np.max(np.abs(b)))
             self.rel_residuals.append(r / nb if nb > 0 else (0.0 if r == 0 else float("inf")))
+            n2 = float(np.linalg.norm(b))
+            self.rel2_residuals.append(float(np.linalg.norm(A @ x - b)) / n2 if n2 > 0 and np.all(np.isfinite(x)) else 0.0)
             self.max_b = max(self.max_b, nb)
         except Exception:
             r = float("nan")
@@ -344,8 +348,9 @@ def build(cfg, num_iter=None, form="info"):
 
 
 def make_ref(cfg) -> RefFV:
-    return RefFV(cfg["shape"], cfg["voxel_size"],
-                 rt_rule=darsia.quadrature.gauss_reference_cell(len(cfg["shape"]), "max"))
+    # independent Gauss-Legendre rule (numpy) with the library's number of points per direction: the library's own
+    # tables were wrong in 2-D and 3-D (D37) and had been taken over as 'trusted base' for a while (DESIGN 8.4)
+    return RefFV(cfg["shape"], cfg["voxel_size"])
 
 
 class RunResult:
@@ -551,6 +556,15 @@ def check_result(cfg, rr: RunResult, out: Outcome, tag: str, step: int, fault=No
             reasons.append("inner-step-failed")
         if completed and not criteria_met(cfg, hist, dist):
             reasons.append("criteria-not-met")
+    # an iterative inner solve that returned far from its own convergence criterion (iteration limit hit) is an inner step
+    # that failed; the library neither notices nor flags it (K6)
+    tol_own = iterative_tol(cfg)
+    unconv = [x for x in getattr(seam, "rel2_residuals", []) if x == x and x > 100.0 * tol_own] if cfg["linear_solver"] != "direct" else []
+    if unconv:
+        out.counters["probe:inner-iterative-solve-unconverged"] += 1
+        if conv and not reasons:
+            out.violate("C04.S", f"converged-although:inner-solve-unconverged:{cfg['linear_solver']}", step, tag=tag,
+                        worst_relative_residual=max(unconv), solver_tolerance=tol_own, config=cfg)
     for r in reasons[:1]:
         out.violate("C04.S", f"converged-although:{r}", step, tag=tag, converged=conv,
                     number_iterations=info["number_iterations"], completed_iterations=completed, fault=fault,
